@@ -59,6 +59,11 @@ impl Kt for DbU64 {
         db.db_map_u64_with_params(name, p)
     }
     fn make_key(rng: &mut Rng, _want_len: usize) -> Vec<u8> {
+        // the u64 key type also takes byte strings of any length (From<&[u8]>): one key in eight is such a one
+        if rng.chance(1, 8) {
+            let l = *rng.pick(&[0usize, 1, 3, 7, 9, 12, 17]);
+            return rand_bytes(rng, l);
+        }
         int_sample(rng).to_le_bytes().to_vec()
     }
 }
@@ -69,6 +74,10 @@ impl Kt for DbI64 {
         db.db_map_i64_with_params(name, p)
     }
     fn make_key(rng: &mut Rng, _want_len: usize) -> Vec<u8> {
+        if rng.chance(1, 8) {
+            let l = *rng.pick(&[0usize, 2, 4, 7, 9, 16]);
+            return rand_bytes(rng, l);
+        }
         (int_sample(rng) as i64).to_le_bytes().to_vec()
     }
 }
